@@ -175,6 +175,20 @@ CHECKS = {
         "note": "Trusted: the evaluator (C02), the harness's normalised key (sums/products as multisets), proxies, z3.",
         "technique": SOLVER_TECH + "; operation / uninterpreted-call counts as path assertions",
     },
+    "C13": {
+        "level": "translation_validation",
+        "text": "Per-program translation validation with the solver as equivalence checker: for every skeleton of the "
+                "Python-expressible fragment (every kind at depth 1, every (parent, slot, child) at depth 2, constants in every "
+                "slot, hand-picked nestings; thorough adds depth 3) the code produced by compile() (also after a pickle round "
+                "trip), to_python_ast(), to_evaluatable_python_function() and the tree re-imported by ASTToPymbolic are run on "
+                "z3 proxies and z3 proves per path that each returns what the evaluator returns for every argument assignment "
+                "(arithmetic errors compared by class). Argument order for 0-4 unlisted and every permutation of listed "
+                "variables is a path assertion.",
+        "design_ref": "DESIGN.md §4 C13",
+        "note": "Trusted: the evaluator as reference (C02), proxies, z3, CPython's compile/exec of the generated code. Operands "
+                "of logical nodes are boolean-valued in this family. NotImplementedError from a translator is a clean refusal.",
+        "technique": SOLVER_TECH + " (generated Python code executed on the proxies)",
+    },
 }
 
 _PENDING = "check not built yet in this session (the design in DESIGN.md applies; will be claimed once its harness exists)"
